@@ -50,6 +50,12 @@ def build_api(case):
         t = numpy.array(case['fuvs'], dtype=numpy.float32).reshape(-1)
         srcs.append(source.FloatSource('tsrc', t, ('S', 'T')))
         il.addInput(inputs['TEXCOORD'], 'TEXCOORD', '#tsrc', '0')
+    if inputs.get('TEXTANGENT') is not None:
+        st = numpy.array(case['fstale'], dtype=numpy.float32).reshape(-1)
+        srcs.append(source.FloatSource('tansrc', st, ('X', 'Y', 'Z')))
+        srcs.append(source.FloatSource('binsrc', numpy.array(st), ('X', 'Y', 'Z')))
+        il.addInput(inputs['TEXTANGENT'], 'TEXTANGENT', '#tansrc', '0')
+        il.addInput(inputs['TEXBINORMAL'], 'TEXBINORMAL', '#binsrc', '0')
     g = geometry.Geometry(mesh, 'g', 'g', srcs)
     idx = numpy.array(case['index'], dtype=numpy.int32)
     ts = g.createTriangleSet(idx, il, 'mat')
@@ -209,9 +215,12 @@ def run_case(case):
     else:
         # ---- clause 3: generated texture tangents are unit and orthogonal to the corner's normal
         try:
-            if case.get('gen_normals_first'):
-                prim.generateNormals()
-            prim.generateTexTangentsAndBinormals()
+            ops = case.get('tan_seq') or ((['gen'] if case.get('gen_normals_first') else []) + ['tan'])
+            for op in ops:
+                if op == 'gen':
+                    prim.generateNormals()
+                else:
+                    prim.generateTexTangentsAndBinormals()
             Tn = numpy.asarray(prim.textangentset[0], dtype=numpy.float64)
             TI = numpy.asarray(prim.textangent_indexset[0])
             NA = numpy.asarray(prim.normal, dtype=numpy.float64)
@@ -252,13 +261,13 @@ def run_case(case):
                 if not (abs(L - 1.0) <= UNIT_TOL):
                     if degenerate:
                         continue
-                    fail('tangent-unit', site, 'corner %d: tangent %s has length %r' % (k, row.tolist(), L))
+                    fail('tangent-unit', site, 'corner %d after %s: tangent %s has length %r' % (k, '+'.join(ops), row.tolist(), L))
                     break
                 if abs(float(numpy.dot(row, n))) > TOL:
                     if degenerate:
                         continue
-                    fail('tangent-orthogonal', site, 'corner %d: tangent %s . normal %s = %r'
-                         % (k, row.tolist(), n.tolist(), float(numpy.dot(row, n))))
+                    fail('tangent-orthogonal', site, 'corner %d after %s: tangent %s . normal %s = %r'
+                         % (k, '+'.join(ops), row.tolist(), n.tolist(), float(numpy.dot(row, n))))
                     break
     return {'obs': obs, 'fails': fails}
 
